@@ -1129,6 +1129,8 @@ async fn case(out: &mut Out, rng: &mut Rng, corpus: Option<&str>) {
     let (script, faults): (Vec<u8>, Vec<(u64, Fault)>) = match corpus {
         // DESIGN §6.1: push 2, flush while the segment put fails
         Some("flush-put-fails") => (vec![0, 0, 1], vec![(1, Fault::Fail)]),
+        // a 256 KiB value under a 4 KiB key next to an empty value under the empty key, a torn put, a compaction
+        Some("huge-value") => (vec![0, 0, 1, 0, 1, 0, 1, 3], vec![(5, Fault::Partial)]),
         // 2 segments, compaction whose get of the first segment fails transiently
         Some("compact-get-fails") => (vec![0, 1, 0, 1, 2], vec![(9, Fault::Fail)]),
         // 3 segments, compaction (min 2) whose READ of segment 1 comes back mangled once (the
@@ -1194,6 +1196,12 @@ async fn case(out: &mut Out, rng: &mut Rng, corpus: Option<&str>) {
         let (d1, d2, rec2) = embedded_footer_pair();
         ups = vec![d1, d2, lww_upd("z", b"other", 9, 1, false)];
         cut_rec2 = Some(rec2);
+    }
+    if corpus == Some("huge-value") {
+        let big_key: String = std::iter::repeat("k\u{e9}y-").take(4096 / 5).collect();
+        ups[0] = lww_upd(&big_key, &vec![0xA5u8; 256 * 1024], 7, 1, false);
+        ups[1] = lww_upd("", b"", 8, 1, false);
+        out.count("pattern:huge-value-and-key");
     }
     let mut p = Proc::new(out, 1, &faults).await;
     let mut ui = 0;
@@ -1312,6 +1320,7 @@ pub fn run(a: &Args) {
         case(&mut out, &mut Rng::new(0xC12), Some("recover-manifest-digit-flip")).await;
         case(&mut out, &mut Rng::new(0xC12), Some("compact-read-cut-at-record-boundary")).await;
         case(&mut out, &mut Rng::new(0xC12), Some("orphan-then-compaction")).await;
+        case(&mut out, &mut Rng::new(0xC12), Some("huge-value")).await;
         for _ in 0..a.n {
             let mut r = rng.fork();
             case(&mut out, &mut r, None).await;
